@@ -141,14 +141,17 @@ Section Open.
     decode (slice p (flen p - 8 - le32 (slice p (flen p - 8) 4)) (le32 (slice p (flen p - 8) 4))) <> None.
 End Open.
 
-(** FilePages.ReadPage over the section of one column chunk (file.go:1192-1262
-    and endOfChunk, file.go:1523-1541).  [pages]: sizes (header + body) of the
-    pages of the chunk in order; [size]: their sum (ColumnMetaData
-    .TotalCompressedSize); [avail]: how many bytes of the section the source
-    delivers (a source that ended early answers short reads with io.EOF from
-    there on).  Result: number of pages returned, and how the sequence ended.
-    [cur = false] is the code before commit fc42a8f, which took every io.EOF met
-    while looking for the next page header for the end of the chunk. *)
+(** FilePages.ReadPage over the section of one column chunk (file.go:1192-1268,
+    readPage 1473-1505, endOfChunk).  [pages]: (header length, body length) of
+    the pages of the chunk in order; [size]: the sum of all of them
+    (ColumnMetaData.TotalCompressedSize); [avail]: how many bytes of the section
+    the source delivers (a source that ended early answers short reads with
+    io.EOF from there on).  Result: number of pages returned, and how the
+    sequence ended.
+    [cur = false] is the code before commits fc42a8f and its follow-up: every
+    io.EOF met while looking for the next page header, and the io.EOF of
+    io.ReadFull when no byte of a page body could be read, were taken for the
+    end of the chunk. *)
 Inductive pages_end :=
 | PEnd          (* io.EOF: end of the column chunk *)
 | PUnexpected.  (* an error wrapping io.ErrUnexpectedEOF *)
@@ -156,14 +159,17 @@ Inductive pages_end :=
 Definition end_of_chunk (cur : bool) (size consumed : N) : pages_end :=
   if cur && (consumed <? size) then PUnexpected else PEnd.
 
-Fixpoint read_pages (cur : bool) (size avail consumed : N) (pages : list N) : nat * pages_end :=
+Fixpoint read_pages (cur : bool) (size avail consumed : N) (pages : list (N * N)) : nat * pages_end :=
   match pages with
   | [] => (O, end_of_chunk cur size consumed)
-  | pl :: r =>
+  | (h, b) :: r =>
       if avail <=? consumed then (O, end_of_chunk cur size consumed)   (* io.EOF on the first byte of the header *)
-      else if consumed + pl <=? avail then
-        let '(k, e) := read_pages cur size avail (consumed + pl) r in (S k, e)
-      else (O, PUnexpected)   (* the source ends inside the page: header decoding / io.ReadFull fail *)
+      else if avail <? consumed + h then (O, PUnexpected)              (* the thrift decoder runs out of bytes inside the header *)
+      else if (avail =? consumed + h) && (0 <? b) then
+        (O, if cur then PUnexpected else PEnd)                          (* io.ReadFull of the body reads nothing: io.EOF *)
+      else if consumed + h + b <=? avail then
+        let '(k, e) := read_pages cur size avail (consumed + h + b) r in (S k, e)
+      else (O, PUnexpected)                                             (* io.ReadFull reads part of the body *)
   end.
 
 (* for the oracle: verdict for a prefix given its length, first 4 and last 8
